@@ -389,81 +389,114 @@ Proof. vm_compute. repeat split; reflexivity. Qed.
 (* 3. The header: the import manager is idempotent on its own output       *)
 (* ====================================================================== *)
 
-Definition module_lt (x y : simport) : Prop := String.ltb (i_module x) (i_module y) = true.
-
-Lemma fold_im_step_fixed : forall l out,
-  NoDup (map i_module (out ++ l)) -> NoDup (map bound_name (out ++ l)) ->
-  fold_left im_step l (out, map i_module out, map bound_name out) =
-  (out ++ l, map i_module (out ++ l), map bound_name (out ++ l)).
+Lemma fold_im_step_fixed : forall n0 l out,
+  NoDup (map i_module (out ++ l)) -> NoDup (n0 ++ map bound_name (out ++ l)) ->
+  fold_left im_step l (out, map i_module out, n0 ++ map bound_name out) =
+  (out ++ l, map i_module (out ++ l), n0 ++ map bound_name (out ++ l)).
 Proof.
-  induction l as [|st r IH]; intros out Hm Hn; cbn [fold_left].
+  intros n0. induction l as [|st r IH]; intros out Hm Hn; cbn [fold_left].
   - rewrite app_nil_r. reflexivity.
   - assert (Em : str_in (i_module st) (map i_module out) = false).
     { destruct (str_in (i_module st) (map i_module out)) eqn:E; [|reflexivity].
       exfalso. apply str_in_In in E. rewrite map_app in Hm. cbn [map] in Hm.
       apply NoDup_remove_2 in Hm. apply Hm, in_or_app. left; exact E. }
-    assert (En : str_in (bound_name st) (map bound_name out) = false).
-    { destruct (str_in (bound_name st) (map bound_name out)) eqn:E; [|reflexivity].
-      exfalso. apply str_in_In in E. rewrite map_app in Hn. cbn [map] in Hn.
+    assert (En : str_in (bound_name st) (n0 ++ map bound_name out) = false).
+    { destruct (str_in (bound_name st) (n0 ++ map bound_name out)) eqn:E; [|reflexivity].
+      exfalso. apply str_in_In in E. rewrite map_app in Hn. cbn [map] in Hn. rewrite app_assoc in Hn.
       apply NoDup_remove_2 in Hn. apply Hn, in_or_app. left; exact E. }
-    assert (Hstep : im_step (out, map i_module out, map bound_name out) st =
-                    (out ++ [st], map i_module (out ++ [st]), map bound_name (out ++ [st]))).
+    assert (Hstep : im_step (out, map i_module out, n0 ++ map bound_name out) st =
+                    (out ++ [st], map i_module (out ++ [st]), n0 ++ map bound_name (out ++ [st]))).
     { unfold im_step. rewrite Em. cbv zeta. unfold uniquify_name. rewrite En.
-      rewrite String.eqb_refl. rewrite !map_app. reflexivity. }
+      rewrite String.eqb_refl. rewrite !map_app, <- app_assoc. reflexivity. }
     rewrite Hstep.
     assert (Happ : (out ++ [st]) ++ r = out ++ st :: r) by (rewrite <- app_assoc; reflexivity).
     rewrite IH; rewrite Happ; [reflexivity | exact Hm | exact Hn].
 Qed.
 
-(* a list of imports sorted by strictly increasing module with distinct bound names is left alone *)
+(* imports with distinct modules and distinct, non-reserved bound names are only put in order *)
 Theorem import_manager_fixed : forall l,
-  StronglySorted module_lt l -> NoDup (map bound_name l) -> import_manager l = l.
+  NoDup (map i_module l) -> NoDup (names0 l ++ map bound_name l) ->
+  import_manager l = sort_stable (fun x => x) import_key_ltb l.
 Proof.
-  intros l Hs Hn. rewrite import_manager_unfold.
-  assert (Hsort : sort_stable (fun x => x) import_key_ltb l = l).
-  { apply sort_sorted_id. rewrite <- (map_id l) at 1.
-    eapply StronglySorted_map_rel; [|exact Hs].
-    intros x y Hxy. unfold module_lt in Hxy. unfold key_le, import_key_ltb.
-    assert (Hyx : String.ltb (i_module y) (i_module x) = false).
-    { destruct (String.ltb (i_module y) (i_module x)) eqn:E; [|reflexivity].
-      rewrite <- (string_ltb_irrefl (i_module x)). symmetry. eapply string_ltb_trans; eassumption. }
-    destruct (String.eqb_spec (i_module y) (i_module x)) as [E|N]; [|exact Hyx].
-    rewrite E, string_ltb_irrefl in Hxy. discriminate Hxy. }
-  rewrite Hsort.
-  assert (Hm : NoDup (map i_module l)).
-  { apply (strict_sorted_NoDup (fun x => i_module x) String.ltb string_ltb_irrefl). exact Hs. }
-  pose proof (fold_im_step_fixed l [] Hm Hn) as Hfold. cbn [map app] in Hfold.
-  rewrite Hfold. reflexivity.
+  intros l Hm Hn. rewrite import_manager_unfold.
+  pose proof (sort_stable_perm _ _ (fun x : simport => x) import_key_ltb l) as Hp.
+  set (S := sort_stable (fun x : simport => x) import_key_ltb l) in *.
+  assert (HmS : NoDup (map i_module S)).
+  { eapply Permutation_NoDup; [apply Permutation_map, Permutation_sym, Hp | exact Hm]. }
+  assert (HnS : NoDup (names0 l ++ map bound_name S)).
+  { eapply Permutation_NoDup; [|exact Hn].
+    apply Permutation_app_head, Permutation_map, Permutation_sym, Hp. }
+  pose proof (fold_im_step_fixed (names0 l) S [] HmS HnS) as Hfold.
+  cbn [map app] in Hfold. rewrite app_nil_r in Hfold. rewrite Hfold. reflexivity.
 Qed.
 
-Lemma sorted_imports_strict : forall l, NoDup (map i_module l) -> StronglySorted module_lt (sorted_imports l).
+Lemma NoDup_sorted_key : forall l, NoDup (map i_module l) -> NoDup (map sorted_key l).
+Proof. intros l Hnd. apply (NoDup_map_compose _ _ _ sorted_key snd). exact Hnd. Qed.
+
+Theorem sorted_imports_import_manager_fixed : forall l,
+  NoDup (map i_module l) -> NoDup (names0 l ++ map bound_name l) ->
+  sorted_imports (import_manager l) = sorted_imports l.
 Proof.
-  intros l Hnd. unfold sorted_imports.
-  apply (sorted_nodup_strict (fun x => i_module x) String.ltb string_ltb_strict_total).
-  - apply sort_stable_sorted', string_ltb_strict_total.
-  - eapply Permutation_NoDup; [|exact Hnd]. apply Permutation_map, Permutation_sym, sort_stable_perm.
+  intros l Hm Hn. rewrite (import_manager_fixed l Hm Hn). unfold sorted_imports.
+  apply sort_stable_canonical.
+  - apply sorted_key_ltb_strict_total.
+  - apply NoDup_sorted_key. eapply Permutation_NoDup; [|exact Hm].
+    apply Permutation_map, Permutation_sym, sort_stable_perm.
+  - apply sort_stable_perm.
 Qed.
 
-Lemma sorted_imports_fixed : forall l, StronglySorted module_lt l -> sorted_imports l = l.
+Lemma sorted_imports_sorted : forall l, StronglySorted (key_le sorted_key sorted_key_ltb) (sorted_imports l).
+Proof. intros l. apply sort_stable_sorted', sorted_key_ltb_strict_total. Qed.
+Lemma sorted_imports_fixed : forall l, StronglySorted (key_le sorted_key sorted_key_ltb) l -> sorted_imports l = l.
+Proof. intros l Hs. unfold sorted_imports. apply sort_sorted_id, Hs. Qed.
+
+(* the order in which the manager ADDS statements (repaired code: feature statements first, then module,
+   from-style first) agrees with the order of the header on statements of pairwise distinct modules *)
+Lemma header_sorted_import_key_sorted : forall l,
+  StronglySorted (key_le sorted_key sorted_key_ltb) l -> NoDup (map i_module l) ->
+  StronglySorted (key_le (fun x : simport => x) import_key_ltb) l.
 Proof.
-  intros l Hs. unfold sorted_imports.
-  apply (sort_strictly_sorted_id (fun x => i_module x) String.ltb string_ltb_strict_total). exact Hs.
+  intros l Hs Hm.
+  pose proof (sorted_nodup_strict sorted_key sorted_key_ltb sorted_key_ltb_strict_total l Hs
+                (NoDup_sorted_key l Hm)) as Hstrict.
+  rewrite <- (map_id l). eapply StronglySorted_map_rel; [|exact Hstrict].
+  intros x y Hxy. unfold key_lt, sorted_key_ltb, sorted_key in Hxy. cbn [fst snd] in Hxy.
+  unfold key_le, import_key_ltb.
+  destruct (is_feature_module (i_module x)) eqn:Fx, (is_feature_module (i_module y)) eqn:Fy;
+    cbn in Hxy |- *; try reflexivity; try discriminate Hxy.
+  - unfold import_key_ltb_orig.
+    destruct (String.eqb_spec (i_module y) (i_module x)) as [E|N].
+    + rewrite E, string_ltb_irrefl in Hxy. discriminate Hxy.
+    + destruct (String.ltb (i_module y) (i_module x)) eqn:E; [|reflexivity].
+      rewrite <- (string_ltb_irrefl (i_module x)). symmetry. eapply string_ltb_trans; eassumption.
+  - unfold import_key_ltb_orig.
+    destruct (String.eqb_spec (i_module y) (i_module x)) as [E|N].
+    + rewrite E, string_ltb_irrefl in Hxy. discriminate Hxy.
+    + destruct (String.ltb (i_module y) (i_module x)) eqn:E; [|reflexivity].
+      rewrite <- (string_ltb_irrefl (i_module x)). symmetry. eapply string_ltb_trans; eassumption.
 Qed.
 
-(* (3): what a re-parse of the text records (the emitted statements) is a fixed point of the manager.
+(* (3): what a re-parse of the text records (the emitted statements, in the order of the header) is a fixed
+   point of the manager, and gives the same header again.
    The bound is the one of import_manager_unique_names (fresh aliases exist only below 10^20). *)
 Theorem import_manager_idempotent : forall imports, List.length imports + 3 <= 10 ^ 20 ->
   let imps' := sorted_imports (import_manager imports) in
   import_manager imps' = imps' /\ sorted_imports (import_manager imps') = imps'.
 Proof.
   intros imports Hb imps'.
-  assert (Hs : StronglySorted module_lt imps').
-  { subst imps'. apply sorted_imports_strict, import_manager_unique_modules. }
-  assert (Hn : NoDup (map bound_name imps')).
-  { subst imps'. unfold sorted_imports. eapply Permutation_NoDup.
-    - apply Permutation_map, Permutation_sym, sort_stable_perm.
-    - apply import_manager_unique_names, Hb. }
-  assert (H1 : import_manager imps' = imps') by (apply import_manager_fixed; assumption).
+  assert (Hp : Permutation imps' (import_manager imports)) by (subst imps'; apply sort_stable_perm).
+  assert (Hm : NoDup (map i_module imps')).
+  { eapply Permutation_NoDup; [apply Permutation_map, Permutation_sym, Hp|].
+    apply import_manager_unique_modules. }
+  assert (Hn : NoDup (names0 imps' ++ map bound_name imps')).
+  { assert (H0 : names0 imps' = names0 imports).
+    { unfold names0. subst imps'. rewrite is_dynamic_sorted_imports, is_dynamic_import_manager. reflexivity. }
+    rewrite H0. eapply Permutation_NoDup; [|apply import_manager_names_inv, Hb].
+    apply Permutation_app_head, Permutation_map, Permutation_sym, Hp. }
+  assert (Hs : StronglySorted (key_le sorted_key sorted_key_ltb) imps') by (subst imps'; apply sorted_imports_sorted).
+  assert (H1 : import_manager imps' = imps').
+  { rewrite (import_manager_fixed imps' Hm Hn).
+    apply sort_sorted_id, header_sorted_import_key_sorted; assumption. }
   split; [exact H1|]. rewrite H1. apply sorted_imports_fixed, Hs.
 Qed.
 
@@ -474,6 +507,309 @@ Proof.
   intros imports Hb imps'. destruct (import_manager_idempotent imports Hb) as [_ H2].
   fold imps' in H2. rewrite H2. reflexivity.
 Qed.
+
+(* ---- the repaired header order: __gin__ feature statements first ---- *)
+Definition is_feature (i : simport) : bool := is_feature_module (i_module i).
+
+Lemma sorted_split : forall A (R : A -> A -> Prop) (f : A -> bool) l,
+  (forall x y, R x y -> f x = false -> f y = false) -> StronglySorted R l ->
+  l = filter f l ++ filter (fun x => negb (f x)) l.
+Proof.
+  intros A R f l HR Hs. induction Hs as [|x r Hsr IH Hall]; [reflexivity|].
+  cbn [filter]. destruct (f x) eqn:Ex; cbn [negb app]; [f_equal; exact IH|].
+  assert (Hr : forall y, In y r -> f y = false).
+  { rewrite Forall_forall in Hall. intros y Hy. apply (HR x y); [apply Hall, Hy | exact Ex]. }
+  rewrite (filter_all_false _ f r Hr). cbn [app]. f_equal.
+  symmetry. apply filter_all_true. intros y Hy. rewrite (Hr y Hy). reflexivity.
+Qed.
+
+Lemma header_le_feature : forall x y, key_le sorted_key sorted_key_ltb x y ->
+  is_feature x = false -> is_feature y = false.
+Proof.
+  intros x y H Hx. unfold key_le, sorted_key_ltb, sorted_key, is_feature in *. cbn [fst snd] in H.
+  rewrite Hx in H. destruct (is_feature_module (i_module y)); [|reflexivity].
+  cbn in H. discriminate H.
+Qed.
+
+(* for ANY list of statements, the header is (feature statements) ++ (the others), each part sorted *)
+Theorem sorted_imports_feature_first : forall l,
+  exists l1 l2, sorted_imports l = l1 ++ l2 /\
+    Forall (fun i => is_feature i = true) l1 /\ Forall (fun i => is_feature i = false) l2.
+Proof.
+  intros l. exists (filter is_feature (sorted_imports l)), (filter (fun x => negb (is_feature x)) (sorted_imports l)).
+  split; [|split].
+  - apply (sorted_split _ _ is_feature _ header_le_feature (sorted_imports_sorted l)).
+  - apply Forall_forall. intros i Hi. apply filter_In in Hi. apply Hi.
+  - apply Forall_forall. intros i Hi. apply filter_In in Hi. destruct Hi as [_ Hi].
+    apply negb_true_iff, Hi.
+Qed.
+
+Theorem C06_feature_statement_first : forall imports,
+  exists l1 l2, sorted_imports (import_manager imports) = l1 ++ l2 /\
+    Forall (fun i => is_feature_module (i_module i) = true) l1 /\
+    Forall (fun i => is_feature_module (i_module i) = false) l2.
+Proof. intros imports. apply sorted_imports_feature_first. Qed.
+
+(* in the form "i occurs before j" *)
+Theorem C06_feature_statement_before : forall imports i j,
+  In i (import_manager imports) -> is_feature_module (i_module i) = true ->
+  In j (import_manager imports) -> is_feature_module (i_module j) = false ->
+  exists a b c, sorted_imports (import_manager imports) = a ++ i :: b ++ j :: c.
+Proof.
+  intros imports i j Hi Hfi Hj Hfj.
+  destruct (sorted_imports_feature_first (import_manager imports)) as (l1 & l2 & Heq & H1 & H2).
+  assert (Hin : forall x, In x (import_manager imports) -> In x (l1 ++ l2)).
+  { intros x Hx. rewrite <- Heq. unfold sorted_imports.
+    apply (Permutation_in _ (Permutation_sym (sort_stable_perm _ _ _ _ _))). exact Hx. }
+  rewrite Forall_forall in H1, H2.
+  assert (Hi1 : In i l1).
+  { destruct (in_app_or _ _ _ (Hin i Hi)) as [H|H]; [exact H|].
+    specialize (H2 i H). unfold is_feature in H2. congruence. }
+  assert (Hj2 : In j l2).
+  { destruct (in_app_or _ _ _ (Hin j Hj)) as [H|H]; [|exact H].
+    specialize (H1 j H). unfold is_feature in H1. congruence. }
+  apply in_split in Hi1. destruct Hi1 as (a & b & ->).
+  apply in_split in Hj2. destruct Hj2 as (b' & c & ->).
+  exists a, (b ++ b'), c. rewrite Heq, <- !app_assoc. reflexivity.
+Qed.
+
+(* the code before the repair sorted by module only: an upper-case module came before the feature statement *)
+Example C06_orig_header_order_refuted :
+  let imports := [ {| i_module := "__gin__.dynamic_registration"; i_from := true; i_alias := None |};
+                   {| i_module := "Zmod"; i_from := false; i_alias := None |} ] in
+  map import_format (sorted_imports_orig (import_manager imports)) =
+    ["import Zmod"; "from __gin__ import dynamic_registration"] /\
+  map import_format (sorted_imports (import_manager imports)) =
+    ["from __gin__ import dynamic_registration"; "import Zmod"].
+Proof. vm_compute. split; reflexivity. Qed.
+
+(* under dynamic registration the symbol gin is reserved: `import gin.config` is re-aliased *)
+Example C06_reserved_gin_realiased :
+  let dyn := {| i_module := "__gin__.dynamic_registration"; i_from := true; i_alias := None |} in
+  let ginc := {| i_module := "gin.config"; i_from := false; i_alias := None |} in
+  let zcx := {| i_module := "zcx"; i_from := false; i_alias := None |} in
+  map import_format (sorted_imports (import_manager [dyn; ginc; zcx])) =
+    ["from __gin__ import dynamic_registration"; "import gin.config as gin2"; "import zcx"] /\
+  map import_format (sorted_imports (import_manager [ginc; zcx])) = ["import gin.config"; "import zcx"].
+Proof. vm_compute. split; reflexivity. Qed.
+
+(* ---- the order in which the manager adds statements is a strict weak order: the pull-back of a strict
+   total order on the key (not feature, (module, not from)) ---- *)
+Definition import_sort_key (a : simport) : bool * (string * bool) :=
+  (negb (is_feature_module (i_module a)), (i_module a, negb (i_from a))).
+Definition import_sort_key_ltb : bool * (string * bool) -> bool * (string * bool) -> bool :=
+  lex_ltb bool_ltb (lex_ltb String.ltb bool_ltb).
+
+Theorem import_sort_key_ltb_strict_total : strict_total import_sort_key_ltb.
+Proof.
+  apply lex_strict_total; [apply bool_ltb_strict_total|].
+  apply lex_strict_total; [apply string_ltb_strict_total | apply bool_ltb_strict_total].
+Qed.
+
+Theorem import_key_ltb_as_key : forall a b,
+  import_key_ltb a b = import_sort_key_ltb (import_sort_key a) (import_sort_key b).
+Proof.
+  intros a b. unfold import_key_ltb, import_sort_key_ltb, import_sort_key, lex_ltb. cbn [fst snd].
+  assert (Horig : import_key_ltb_orig a b =
+                  (if String.ltb (i_module a) (i_module b) then true
+                   else if String.ltb (i_module b) (i_module a) then false
+                   else bool_ltb (negb (i_from a)) (negb (i_from b)))).
+  { unfold import_key_ltb_orig.
+    destruct (String.eqb_spec (i_module a) (i_module b)) as [E|N].
+    - rewrite E, string_ltb_irrefl. unfold bool_ltb. destruct (i_from a), (i_from b); reflexivity.
+    - destruct (String.ltb (i_module a) (i_module b)) eqn:E1; [reflexivity|].
+      destruct (String.ltb (i_module b) (i_module a)) eqn:E2; [reflexivity|].
+      exfalso. apply N. apply string_ltb_total; assumption. }
+  destruct (is_feature_module (i_module a)), (is_feature_module (i_module b)); cbn; try reflexivity; exact Horig.
+Qed.
+
+Lemma sort_stable_key_ext : forall A K1 K2 (k1 : A -> K1) (l1 : K1 -> K1 -> bool) (k2 : A -> K2) (l2 : K2 -> K2 -> bool),
+  (forall x y, l1 (k1 x) (k1 y) = l2 (k2 x) (k2 y)) ->
+  forall l, sort_stable k1 l1 l = sort_stable k2 l2 l.
+Proof.
+  intros A K1 K2 k1 l1 k2 l2 H l. unfold sort_stable. induction l as [|x r IH]; [reflexivity|].
+  cbn [fold_right]. rewrite IH. generalize (fold_right (insert_stable k2 l2) [] r) as s. intros s.
+  induction s as [|y s IHs]; [reflexivity|]. cbn [insert_stable]. rewrite H, IHs. reflexivity.
+Qed.
+
+Theorem import_manager_sort_sorted : forall imports,
+  StronglySorted (key_le (fun x : simport => x) import_key_ltb)
+                 (sort_stable (fun x : simport => x) import_key_ltb imports).
+Proof.
+  intros imports.
+  rewrite (sort_stable_key_ext _ _ _ (fun x : simport => x) import_key_ltb import_sort_key import_sort_key_ltb
+             import_key_ltb_as_key).
+  pose proof (sort_stable_sorted' import_sort_key import_sort_key_ltb import_sort_key_ltb_strict_total imports) as Hs.
+  rewrite <- (map_id (sort_stable import_sort_key import_sort_key_ltb imports)).
+  eapply StronglySorted_map_rel; [|exact Hs].
+  intros x y Hxy. unfold key_le in *. rewrite import_key_ltb_as_key. exact Hxy.
+Qed.
+
+(* ---- repaired code: feature statements are ADDED first, so other modules cannot take their names ---- *)
+Lemma uniquify_shape : forall fuel i c names,
+  uniquify fuel i c names = c \/ exists k, uniquify fuel i c names = c ^^ nat_str k.
+Proof.
+  induction fuel as [|f IH]; intros i c names; cbn [uniquify]; [left; reflexivity|].
+  cbv zeta. destruct (str_in (c ^^ nat_str i) names); [apply IH|]. right. exists i. reflexivity.
+Qed.
+Lemma uniquify_name_shape : forall c names,
+  uniquify_name c names = c \/ exists k, uniquify_name c names = c ^^ nat_str k.
+Proof.
+  intros c names. unfold uniquify_name. destruct (str_in c names); [apply uniquify_shape | left; reflexivity].
+Qed.
+
+Lemma im_step_out_grows : forall acc st x, In x (fst (fst acc)) -> In x (fst (fst (im_step acc st))).
+Proof.
+  intros [[out mods] names] st x Hx. unfold im_step. cbn [fst] in Hx.
+  destruct (str_in (i_module st) mods); cbn [fst]; [exact Hx|]. apply in_or_app. left; exact Hx.
+Qed.
+
+Section FeatureKept.
+  Variable imports : list simport.
+  Variable i : simport.
+  Hypothesis Hfeat : is_feature_module (i_module i) = true.
+  (* i is the only statement of its module *)
+  Hypothesis Honly : forall j, In j imports -> i_module j = i_module i -> j = i.
+  (* no other feature statement binds i's name, nor can be re-aliased to it *)
+  Hypothesis Hother : forall j, In j imports -> is_feature_module (i_module j) = true ->
+    i_module j <> i_module i ->
+    bound_name j <> bound_name i /\ forall k, bound_name j ^^ nat_str k <> bound_name i.
+
+  Lemma fold_im_step_keeps : forall l acc,
+    StronglySorted (key_le (fun x : simport => x) import_key_ltb) l ->
+    (forall st, In st l -> In st imports) ->
+    (In i (fst (fst acc)) \/
+     (In i l /\ ~ In (i_module i) (snd (fst acc)) /\ ~ In (bound_name i) (snd acc))) ->
+    In i (fst (fst (fold_left im_step l acc))).
+  Proof.
+    induction l as [|st r IH]; intros acc Hs Hincl Hor; cbn [fold_left].
+    - destruct Hor as [H|[[] _]]; exact H.
+    - inversion Hs as [|? ? Hsr Hall]; subst.
+      apply IH; [exact Hsr | intros x Hx; apply Hincl; right; exact Hx|].
+      destruct Hor as [Hout|(Hin & Hmod & Hname)]; [left; apply im_step_out_grows, Hout|].
+      destruct acc as [[out mods] names]. cbn [fst snd] in *. unfold im_step.
+      destruct (str_in (i_module st) mods) eqn:Em; cbn [fst snd].
+      + right. repeat split; try assumption.
+        destruct Hin as [->|Hin]; [|exact Hin]. exfalso. apply Hmod, str_in_In, Em.
+      + cbv zeta. rewrite im_step_bound_name.
+        destruct (string_dec (i_module st) (i_module i)) as [E|N].
+        * assert (st = i) by (apply Honly; [apply Hincl; left; reflexivity | exact E]). subst st.
+          left. cbn [fst]. apply in_or_app. right. left.
+          assert (Hu : uniquify_name (bound_name i) names = bound_name i).
+          { unfold uniquify_name. destruct (str_in (bound_name i) names) eqn:En; [|reflexivity].
+            exfalso. apply Hname, str_in_In, En. }
+          rewrite Hu, String.eqb_refl. reflexivity.
+        * right. cbn [fst snd].
+          assert (Hin' : In i r) by (destruct Hin as [->|Hin]; [contradiction N; reflexivity | exact Hin]).
+          assert (Hfst : is_feature_module (i_module st) = true).
+          { rewrite Forall_forall in Hall. specialize (Hall i Hin').
+            unfold key_le, import_key_ltb in Hall. rewrite Hfeat in Hall.
+            destruct (is_feature_module (i_module st)); [reflexivity | cbn in Hall; discriminate Hall]. }
+          destruct (Hother st (Hincl st (or_introl eq_refl)) Hfst N) as [Hne Hnek].
+          repeat split; [exact Hin' | |].
+          -- intros H. apply in_app_or in H. destruct H as [H|[H|[]]]; [apply Hmod, H | apply N, H].
+          -- intros H. apply in_app_or in H. destruct H as [H|[H|[]]]; [apply Hname, H|].
+             destruct (uniquify_name_shape (bound_name st) names) as [Hu|[k Hu]]; rewrite Hu in H.
+             ++ apply Hne, H.
+             ++ apply (Hnek k), H.
+  Qed.
+
+  Theorem feature_statement_kept : In i imports -> ~ In (bound_name i) (names0 imports) ->
+    In i (import_manager imports).
+  Proof.
+    intros Hi H0. rewrite import_manager_unfold.
+    apply fold_im_step_keeps.
+    - apply import_manager_sort_sorted.
+    - intros st Hst. apply (Permutation_in _ (sort_stable_perm _ _ (fun x : simport => x) import_key_ltb imports)), Hst.
+    - right. cbn [fst snd]. repeat split; [|intros []|exact H0].
+      apply (Permutation_in _ (Permutation_sym (sort_stable_perm _ _ (fun x : simport => x) import_key_ltb imports))), Hi.
+  Qed.
+End FeatureKept.
+
+(* A __gin__ feature statement is never re-aliased (and never dropped): it appears UNCHANGED in the output,
+   provided it is the only statement of its module, its name is not the reserved one, and no other FEATURE
+   statement binds its name or can be re-aliased to it.  Statements of ordinary modules are irrelevant:
+   they are added after all feature statements (repaired code). *)
+Theorem C06_feature_statement_never_realiased : forall imports i,
+  In i imports -> is_feature_module (i_module i) = true ->
+  (forall j, In j imports -> i_module j = i_module i -> j = i) ->
+  ~ In (bound_name i) (names0 imports) ->
+  (forall j, In j imports -> is_feature_module (i_module j) = true -> i_module j <> i_module i ->
+     bound_name j <> bound_name i /\ forall k, bound_name j ^^ nat_str k <> bound_name i) ->
+  In i (import_manager imports) /\
+  exists i', In i' (import_manager imports) /\ i_module i' = i_module i /\ i_alias i' = i_alias i.
+Proof.
+  intros imports i Hi Hf Honly H0 Hother.
+  assert (H : In i (import_manager imports)) by (apply feature_statement_kept; assumption).
+  split; [exact H|]. exists i. split; [exact H | split; reflexivity].
+Qed.
+
+(* the enabling statement `from __gin__ import dynamic_registration` *)
+Definition enabling_stmt : simport :=
+  {| i_module := "__gin__.dynamic_registration"; i_from := true; i_alias := None |}.
+
+Fixpoint last_char (s : string) : option ascii :=
+  match s with
+  | EmptyString => None
+  | String c EmptyString => Some c
+  | String _ r => last_char r
+  end.
+Lemma last_char_append_single : forall a c, last_char (a ^^ String c "") = Some c.
+Proof.
+  induction a as [|x a IH]; intros c; [reflexivity|].
+  cbn [String.append last_char]. destruct (a ^^ String c "") eqn:E; [|rewrite <- E; apply IH].
+  destruct a; discriminate E.
+Qed.
+(* a re-aliased name ends in a decimal digit *)
+Lemma realiased_last_char : forall c k, exists d, d < 10 /\ last_char (c ^^ nat_str k) = Some (ascii_of_nat (48 + d)).
+Proof.
+  intros c k. exists (k mod 10). split; [apply Nat.mod_upper_bound; discriminate|].
+  unfold nat_str. change 20 with (S 19). cbn [nat_digits].
+  rewrite <- append_assoc_s. apply last_char_append_single.
+Qed.
+
+Theorem C06_enabling_statement_unchanged : forall imports,
+  In enabling_stmt imports ->
+  (forall j, In j imports -> i_module j = "__gin__.dynamic_registration" -> j = enabling_stmt) ->
+  (forall j, In j imports -> is_feature_module (i_module j) = true ->
+     i_module j <> "__gin__.dynamic_registration" -> bound_name j <> "dynamic_registration") ->
+  In enabling_stmt (import_manager imports).
+Proof.
+  intros imports Hi Honly Hother.
+  apply (C06_feature_statement_never_realiased imports enabling_stmt); try assumption.
+  - reflexivity.
+  - unfold names0. destruct (is_dynamic imports); [|intros []].
+    intros [H|[]]. vm_compute in H. discriminate H.
+  - intros j Hj Hf Hm. split; [exact (Hother j Hj Hf Hm)|].
+    intros k Hk. destruct (realiased_last_char (bound_name j) k) as [d [Hd Hl]].
+    rewrite Hk in Hl. change (bound_name enabling_stmt) with "dynamic_registration" in Hl.
+    cbn [last_char] in Hl. injection Hl as Hl.
+    apply (f_equal nat_of_ascii) in Hl. rewrite nat_ascii_embedding in Hl by lia.
+    change (nat_of_ascii "n"%char) with 110 in Hl. lia.
+Qed.
+
+(* with a single feature module (all gin has) the last hypothesis is vacuous *)
+Corollary C06_enabling_statement_unchanged_single : forall imports,
+  In enabling_stmt imports ->
+  (forall j, In j imports -> is_feature_module (i_module j) = true -> j = enabling_stmt) ->
+  In enabling_stmt (import_manager imports).
+Proof.
+  intros imports Hi Hall. apply C06_enabling_statement_unchanged; [exact Hi | |].
+  - intros j Hj Hm. apply Hall; [exact Hj|]. rewrite Hm. reflexivity.
+  - intros j Hj Hf Hm. exfalso. apply Hm. rewrite (Hall j Hj Hf). reflexivity.
+Qed.
+
+(* the code before the repair added the statements in (module, from-first) order: a module sorting before
+   "__gin__" that binds the name dynamic_registration made the ENABLING statement the re-aliased one *)
+Definition import_manager_orig (imports : list simport) : list simport :=
+  fst (fst (fold_left im_step (sort_stable (fun x => x) import_key_ltb_orig imports) ([], [], names0 imports))).
+Example C06_orig_enabling_statement_realiased :
+  let pkg := {| i_module := "Pkg.dynamic_registration"; i_from := true; i_alias := None |} in
+  map import_format (import_manager_orig [enabling_stmt; pkg]) =
+    ["from Pkg import dynamic_registration"; "from __gin__ import dynamic_registration as dynamic_registration2"] /\
+  map import_format (import_manager [enabling_stmt; pkg]) =
+    ["from __gin__ import dynamic_registration"; "from Pkg import dynamic_registration as dynamic_registration2"].
+Proof. vm_compute. split; reflexivity. Qed.
 
 (* the whole clause: the text of (recorded imports, restored store) is the text itself *)
 Theorem C06_roundtrip_text : forall registry imports entries maxlen indent,
@@ -499,3 +835,13 @@ Print Assumptions import_manager_fixed.
 Print Assumptions import_manager_idempotent.
 Print Assumptions C06_import_lines_idempotent.
 Print Assumptions C06_roundtrip_text.
+Print Assumptions sorted_imports_import_manager_fixed.
+Print Assumptions sorted_imports_feature_first.
+Print Assumptions C06_feature_statement_first.
+Print Assumptions C06_feature_statement_before.
+Print Assumptions import_sort_key_ltb_strict_total.
+Print Assumptions import_key_ltb_as_key.
+Print Assumptions import_manager_sort_sorted.
+Print Assumptions C06_feature_statement_never_realiased.
+Print Assumptions C06_enabling_statement_unchanged.
+Print Assumptions C06_enabling_statement_unchanged_single.
